@@ -164,9 +164,13 @@ def server_accounting(srv, clients, extra_fds=()):
     return out
 
 
+simos.install_processes()
+
+
 def run(main, choices=(), state_fn=None, cut_fn=None, points=False, horizon=100000, max_steps=2000000):
     gc.disable()
     simos.reset_kernel()
+    simos.reset_procs()
     del Svc.instances[:]
     box = {}
 
